@@ -457,6 +457,10 @@ pub fn generate(ctx: &mut Ctx) {
             ("ver:\"3.0\" a:", ""),
             ("ver:\"3.0\"\nc m:", ""),
             ("ver:\"3.0\" a:[", "]"),
+            // ... nor these: a grid whose first cell / second cell / only row's cell is again a bracket-less grid
+            ("ver:\"3.0\"\na\n", ""),
+            ("ver:\"3.0\"\na,b\n1,", ""),
+            ("ver:\"3.0\" m\na\n", ""),
         ] {
             let mut s = String::new();
             for _ in 0..d {
